@@ -55,7 +55,9 @@ func NewSyncedPool(producer kvdb.DBProducer, flushIDKey []byte) *SyncedPool {
 
 func (p *SyncedPool) Initialize(dbNames []string, flushID []byte) ([]byte, error) {
 	for _, name := range dbNames {
+		p.Lock()
 		wrapper := p.getDB(name)
+		p.Unlock()
 		_, err := wrapper.InitUnderlyingDb()
 		if err != nil {
 			return flushID, err
